@@ -46,7 +46,10 @@ fn main() {
         "C07" => suites_body::c07(&mut em, thorough, seed),
         "C08" => suites_chunk::c08(&mut em, thorough, seed),
         "C09" => suites_chunk::c09(&mut em, thorough, seed),
-        "C10" => suites_sched::run_suite(&mut em, thorough, seed, false, false),
+        "C10" => {
+            suites_sched::run_suite(&mut em, thorough, seed, false, false);
+            suites_sched::run_gz_suite(&mut em, thorough);
+        }
         "C11" => {
             if shard0 {
                 suites_chunk::c11(&mut em, thorough, seed);
